@@ -70,20 +70,22 @@ def const_expr(n, names):
 
 
 def inert(n):
-    """an argument of a log call that cannot have a side effect"""
+    """an argument of a log call whose EVALUATION cannot raise or have an effect (the call is dropped by the translator;
+    only the lazy formatting is swallowed by `logging`, the arguments are evaluated by the caller): a constant, a
+    local name, an attribute path from `self`, `len(<name>)`, a tuple of those.  Arithmetic (ZeroDivisionError,
+    TypeError), subscripts (IndexError, KeyError), attributes of other objects and other calls are refused."""
     if isinstance(n, (ast.Constant, ast.Name)):
         return True
     if isinstance(n, ast.Attribute):
-        return inert(n.value)
-    if isinstance(n, ast.Subscript):
-        return inert(n.value) and inert(n.slice)
+        x = n
+        while isinstance(x, ast.Attribute):
+            x = x.value
+        return isinstance(x, ast.Name) and x.id == "self"
     if isinstance(n, ast.Tuple):
         return all(inert(e) for e in n.elts)
-    if isinstance(n, (ast.BinOp,)):
-        return inert(n.left) and inert(n.right)
-    if isinstance(n, ast.Call) and isinstance(n.func, ast.Name) and n.func.id in ("len", "bool", "int", "min", "max") \
-            and not n.keywords:
-        return all(inert(a) for a in n.args)      # pure builtins on inert arguments
+    if isinstance(n, ast.Call) and isinstance(n.func, ast.Name) and n.func.id == "len" and not n.keywords \
+            and len(n.args) == 1 and isinstance(n.args[0], ast.Name):
+        return True
     return False
 
 
@@ -98,6 +100,12 @@ def check_imports(n, fname, out, siblings):
             out.append("%s:%d: import from %s" % (fname, n.lineno, n.module))
         if n.level > 1 or (n.level == 1 and n.module is not None and n.module.split(".")[0] not in siblings):
             out.append("%s:%d: relative import of %s" % (fname, n.lineno, n.module))
+        if n.level >= 1:
+            for a in n.names:
+                if a.asname is not None and a.asname != a.name:
+                    # a name of the package bound to another object of the package (an exception class exported under
+                    # the name of another one, a function standing in for another)
+                    out.append("%s:%d: `%s` imported under the name `%s`" % (fname, n.lineno, a.name, a.asname))
         return True
     return False
 
@@ -112,6 +120,8 @@ def static_check(src, out, defs):
         if e == "__pycache__":
             continue
         if e not in PKG_FILES or os.path.isdir(os.path.join(pkg, e)):
+            if not os.path.isdir(os.path.join(pkg, e)) and not e.endswith((".py", ".pyc", ".pyo", ".pyd", ".so", ".pth", ".pyi", ".dll", ".dylib")):
+                continue      # (an editor backup, .DS_Store, *.orig ...: nothing the interpreter can import)
             out.append("hpack/%s: unexpected file or directory in the package" % e)
     siblings = {f[:-3] for f in PKG_FILES if f.endswith(".py")}
     for fname in sorted(f for f in PKG_FILES if f.endswith(".py")):
@@ -312,6 +322,22 @@ for (mod, name), C in classes.items():
             out.append("hpack.exceptions.%s has bases %s / metaclass %s at run time" % (name, [b.__name__ for b in C.__bases__], type(C).__name__))
     if name in ("HeaderTable", "Encoder", "Decoder", "HuffmanEncoder") and mro != [name, "object"]:
         out.append("hpack.%s.%s has MRO %s at run time" % (mod, name, mro))
+# the public names of the package are the objects of that name defined in its modules
+for k, v in hpack.__dict__.items():
+    if isinstance(v, (type, types.FunctionType)) and getattr(v, "__module__", "").startswith("hpack"):
+        if v.__name__ != k:
+            out.append("hpack.%s is the object named %s" % (k, v.__name__))
+        home = sys.modules.get(v.__module__)
+        if home is None or home.__dict__.get(v.__name__) is not v:
+            out.append("hpack.%s is not the %s defined in %s" % (k, v.__name__, v.__module__))
+for k in getattr(hpack, "__all__", []):
+    if k not in hpack.__dict__:
+        out.append("hpack.__all__ names %s, which the package does not define" % k)
+for m, M in mods.items():
+    # ... and within the modules: a class or function bound under another name
+    for k, v in M.__dict__.items():
+        if isinstance(v, (type, types.FunctionType)) and getattr(v, "__module__", "").startswith("hpack") and v.__name__ != k:
+            out.append("hpack.%s.%s is the object named %s" % (m, k, v.__name__))
 for m, M in mods.items():
     known = static_names.get((m, None), set())
     for k, v in M.__dict__.items():
@@ -329,7 +355,8 @@ def main():
     except Exception as e:  # noqa: BLE001
         out.append("layout check crashed: %r" % (e,))
     try:
-        env = dict(os.environ, PYTHONPATH=os.path.abspath(src), PYTHONHASHSEED="0", PYTHONDONTWRITEBYTECODE="1")
+        env = dict(os.environ, PYTHONPATH=os.path.abspath(src), PYTHONHASHSEED="0", PYTHONDONTWRITEBYTECODE="1",
+                   PYTHONPYCACHEPREFIX="/nonexistent/hv-no-pyc")
         p = subprocess.run(["/venv/bin/python", "-c", RUNTIME, os.path.join(os.path.abspath(src), "hpack")],
                            input=json.dumps(defs), env=env, capture_output=True, text=True, timeout=120)
         if p.returncode != 0:
